@@ -52,12 +52,36 @@ def VDn():
 
 _VARIANTS = [dict(self=VD(n), _anylen=Const(False)) for n in range(4)] + [dict(self=VDn(), _anylen=Const(True))]
 
+
+def _long_results(consts):
+    """Native results over 0..8 rule tests in which one test (each position in turn) differs from the others: tried on the real
+    code when the counter-model of the any-length variant cannot be used (the solver's model of a failed fold obligation
+    rarely satisfies the quantified precondition)."""
+    if not consts.get("_anylen"):
+        return []
+    out = []
+    for n in range(9):
+        for odd in range(-1, n):
+            for base in (True, False):
+                vd = object.__new__(ValidatedData)
+                tests = []
+                for i in range(n):
+                    t = object.__new__(RuleTest)
+                    t.rule, t.data, t.sub_data, t.filter = None, None, None, None
+                    flag = base if i != odd else not base
+                    t._is_valid, t._tested, t._failures = flag, flag, () if flag else (None,)
+                    tests.append(t)
+                vd.rule_tests, vd.data, vd.schema, vd.cast_data = tuple(tests), None, None, None
+                out.append(dict(self=vd))
+    return out
+
+
 contract("valida.schema:ValidatedData.is_valid", variants=_VARIANTS,
          ensures=lambda self, _anylen, result:
              same(result, all(as_obj(t, RuleTest)._is_valid for t in self.rule_tests))
              and (_anylen or (same(result, conj(self.rule_tests))
                              and same(result, conj(self.rule_tests[1:] + self.rule_tests[:1])))),
-         raises={}, serves=["C06"])
+         raises={}, witnesses=_long_results, serves=["C06"])
 contract("valida.schema:ValidatedData.num_failures", variants=[dict(self=VD(n)) for n in range(4)],
          ensures=lambda self, result:
              result == total_failures(self.rule_tests) and result == total_failures(self.rule_tests[1:] + self.rule_tests[:1]),
@@ -70,7 +94,7 @@ contract("valida.schema:ValidatedData.num_rules_tested", variants=_VARIANTS,
              result == sum(as_obj(t, RuleTest)._tested for t in self.rule_tests)
              and (_anylen or (result == total_tested(self.rule_tests)
                              and result == total_tested(self.rule_tests[1:] + self.rule_tests[:1]))),
-         raises={}, serves=["C06"])
+         raises={}, witnesses=_long_results, serves=["C06"])
 
 
 # ------------------------------------------------------------------------------------------ one rule test per rule
